@@ -123,7 +123,7 @@ def coq_build(targets, timeout=3000, force=()):
                 os.remove(os.path.join(COQ, t[:-3] + ext))
             except FileNotFoundError:
                 pass
-    rc, out, _ = run(["timeout", str(timeout), "make", "-j16"] + list(targets), cwd=COQ, timeout=timeout + 60)
+    rc, out, _ = run(["timeout", str(timeout), "make", "-j16", "-k"] + list(targets), cwd=COQ, timeout=timeout + 60)
     return rc == 0, out
 
 
